@@ -9,12 +9,24 @@ Record c02_case := mkC02 { c2_target : val; c2_ops : list (string * arg); c2_imp
 Definition c02_model (c : c02_case) : res val := glom_t (c2_target c) (c2_ops c).
 Definition c02_spec (c : c02_case) : res val := t_spec (pred default_fuel) (c2_target c) (c2_ops c).
 
+(* identity is compared on dicts (tuples are excluded: CPython may return an operand itself for t + () and t * 1) *)
+Fixpoint dict_ids_f (fuel : nat) (v : val) : list nat :=
+  match fuel with O => [] | S fuel =>
+  match v with
+  | VList _ xs | VTuple _ xs | VSet _ _ xs => flat_map (dict_ids_f fuel) xs
+  | VDict i _ kvs => i :: flat_map (fun kv => dict_ids_f fuel (snd kv)) kvs
+  | _ => [] end end.
+Definition dict_ids (v : val) : list nat := dict_ids_f (S (depth v)) v.
+Fixpoint nats_eqb (a b : list nat) : bool :=
+  match a, b with [], [] => true | x :: a, y :: b => Nat.eqb x y && nats_eqb a b | _, _ => false end.
+Definition eqb_c02 (a b : val) : bool := val_eqb_noid a b && nats_eqb (dict_ids a) (dict_ids b).
+
 Definition c02_check (c : c02_case) : bool :=
   match c02_model c with
   | Unmodelled _ => true
-  | m => res_eqb val_eqb_noid m (c2_impl c) end
+  | m => res_eqb eqb_c02 m (c2_impl c) end
   && match c02_spec c with
      | Unmodelled _ => true
-     | s => res_eqb val_eqb_noid s (c2_impl c) end.
+     | s => res_eqb eqb_c02 s (c2_impl c) end.
 Definition c02_unmodelled (c : c02_case) : bool :=
   match c02_model c, c02_spec c with Unmodelled _, Unmodelled _ => true | _, _ => false end.
